@@ -5,6 +5,7 @@ sys.path.insert(0, os.path.dirname(os.path.abspath(__file__)))
 import build  # noqa
 import gen  # noqa
 import genfold  # noqa  (registers generators)
+import genlimits  # noqa
 
 VERIF = build.VERIF
 REPO = build.REPO
